@@ -36,9 +36,42 @@ def _callee(ctx, fi, call):
         return "prim", ct.name
     if ct.kind == "repo" and len(ct.funcs) == 1 and ct.funcs[0].module.name == BASE and ct.funcs[0].name in FUNCS:
         return "sibling", ct.funcs[0]
+    if ct.kind == "repo" and len(ct.funcs) == 1:
+        w = _layout_wrapper(ctx, ct.funcs[0])
+        if w is not None:
+            return "wrapper", (ct.funcs[0], w)
     if ct.kind == "repo":
         return "repo", ct.funcs[0]
     return ct.kind, ct.name
+
+
+_WRAPPER_CACHE = {}
+
+
+def _layout_wrapper(ctx, g, depth=0):
+    """name of the parameter g re-arranges when g is nothing but `return <layout primitive>(param, ...)`
+    (a private helper wrapping reshape / moveaxis / transpose); None otherwise"""
+    key = (id(ctx.repo), g.qname)
+    if key in _WRAPPER_CACHE:
+        return _WRAPPER_CACHE[key]
+    _WRAPPER_CACHE[key] = None
+    body = [b for b in g.node.body if not (isinstance(b, ast.Expr) and isinstance(b.value, ast.Constant))]
+    rets = [r for r in own_scope_nodes(g.node) if isinstance(r, ast.Return)]
+    out = None
+    if len(rets) == 1 and rets[0].value is not None and body and body[-1] is rets[0] and depth < 2:
+        v = inline_locals(g.node, rets[0].value)
+        if isinstance(v, ast.Call):
+            ct = ctx.repo.resolve_call(g, g.module, v)
+            operand = None
+            if ct.kind == "backend" and ct.name in LAYOUT_PRIMS:
+                operand = v.args[0] if v.args else next((k.value for k in v.keywords if k.arg in ("tensor", "a", "x", "array")), None)
+            if isinstance(operand, ast.Name) and operand.id in g.all_params:
+                # nothing else in the helper touches the operand except shape reads
+                others = [n for n in own_scope_nodes(g.node) if isinstance(n, ast.Name) and n.id == operand.id and isinstance(n.ctx, ast.Store)]
+                if not others:
+                    out = operand.id
+    _WRAPPER_CACHE[key] = out
+    return out
 
 
 def _operand(ctx, fi, call):
@@ -49,6 +82,10 @@ def _operand(ctx, fi, call):
     if kind == "sibling":
         b = bind_call(call, tgt, bound=False)
         return b.params.get(tgt.pos_params[0])
+    if kind == "wrapper":
+        g, pname = tgt
+        b = bind_call(call, g, bound=False)
+        return b.params.get(pname)
     return None
 
 
@@ -139,7 +176,7 @@ def layout_only(ctx: Ctx, fi):
             return e.id in aliases
         if isinstance(e, ast.Call):
             kind, tgt = _callee(ctx, fi, e)
-            if (kind == "prim" and tgt in LAYOUT_PRIMS) or kind == "sibling":
+            if (kind == "prim" and tgt in LAYOUT_PRIMS) or kind in ("sibling", "wrapper"):
                 op = _operand(ctx, fi, e)
                 return op is not None and is_layout_expr(op)
         return False
@@ -168,7 +205,7 @@ def layout_only(ctx: Ctx, fi):
                 kind, tgt = _callee(ctx, fi, p)
                 if kind == "prim" and tgt in SHAPE_PRIMS and p.args and p.args[0] is n:
                     ok = True
-                elif ((kind == "prim" and tgt in LAYOUT_PRIMS) or kind == "sibling") and _operand(ctx, fi, p) is n:
+                elif ((kind == "prim" and tgt in LAYOUT_PRIMS) or kind in ("sibling", "wrapper")) and _operand(ctx, fi, p) is n:
                     ok = True
             elif isinstance(p, ast.Assign) and p.value is n:
                 ok = True  # plain alias
@@ -176,7 +213,11 @@ def layout_only(ctx: Ctx, fi):
                 # handed to a helper nested in this function (a lifted closure variable, or an explicit argument):
                 # fine when the helper itself only reads the shape of that parameter
                 call = par.get(id(p))
-                if isinstance(call, ast.Call) and isinstance(call.func, ast.Name):
+                if isinstance(call, ast.Call):
+                    kind, tgt = _callee(ctx, fi, call)
+                    if kind in ("sibling", "wrapper") and _operand(ctx, fi, call) is n:
+                        ok = True
+                if not ok and isinstance(call, ast.Call) and isinstance(call.func, ast.Name):
                     helper = next((h for h in ast.walk(fi.node) if isinstance(h, ast.FunctionDef) and h is not fi.node and h.name == call.func.id), None)
                     if helper is not None and p.arg in {a.arg for a in helper.args.args + helper.args.kwonlyargs}:
                         hp = {}
@@ -493,6 +534,8 @@ def forward(ctx: Ctx, wrapper, target, fixed):
         if a is None:
             d = target.defaults.get(p)
             a = d
+        if a is not None:
+            a = inline_locals(wrapper.node, a)  # first_mode = 0; partial_unfold(tensor, first_mode, ...)
         if a is None or not is_const(a, v):
             ctx.finding("FORWARD", wrapper, call, f"`{p}` must be {v!r} in the delegation to {target.name} (got {src(a) if a is not None else 'nothing'})", construct=f"{wrapper.name}: {p}")
     # the operand is passed unmodified
